@@ -34,10 +34,18 @@ func historyDoc(seed int64, history string) (*shared.Doc, error) {
 			return nil, fmt.Errorf("history %q: unknown revision kind %q", history, k)
 		}
 		rev := ser.Revision{Kind: kind, Trailer: obj.Dict{"Root": obj.Ref{Num: 1}, "Info": obj.Ref{Num: 3}}}
-		info := obj.Dict{"Title": obj.Str(fmt.Sprintf("revision %d of %d", r+1, seed))}
+		// (document-level entries given as indirect objects: reading them is a read of its own)
+		info := obj.Dict{"Title": obj.Str(fmt.Sprintf("revision %d of %d", r+1, seed)), "Trapped": obj.Ref{Num: 11}, "VerifNote": obj.Ref{Num: 12}}
 		if r == 0 {
 			rev.Ops = []ser.Op{
-				{Num: 1, Kind: ser.Define, Value: obj.Dict{"Type": obj.Name("Catalog"), "Pages": obj.Ref{Num: 2}}},
+				{Num: 1, Kind: ser.Define, Value: obj.Dict{"Type": obj.Name("Catalog"), "Pages": obj.Ref{Num: 2},
+					"PageMode": obj.Ref{Num: 7}, "PageLayout": obj.Ref{Num: 8}, "Lang": obj.Ref{Num: 9}, "NeedsRendering": obj.Ref{Num: 10}}},
+				{Num: 7, Kind: ser.Define, Value: obj.Name("UseOutlines")},
+				{Num: 8, Kind: ser.Define, Value: obj.Name("TwoColumnLeft")},
+				{Num: 9, Kind: ser.Define, Value: obj.Str("de-CH")},
+				{Num: 10, Kind: ser.Define, Value: obj.Bool(true)},
+				{Num: 11, Kind: ser.Define, Value: obj.Name("True")},
+				{Num: 12, Kind: ser.Define, Value: obj.Str("a custom entry")},
 				{Num: 2, Kind: ser.Define, Value: obj.Dict{"Type": obj.Name("Pages"), "Kids": obj.Array{}, "Count": obj.Int(0)}},
 				{Num: 3, Kind: ser.Define, Value: info},
 				{Num: 4, Kind: ser.Define, Value: &obj.Stream{Dict: obj.Dict{"K": obj.Int(1)}, Raw: []byte(strings.Repeat("first revision of the stream\n", 45))}},
